@@ -5,6 +5,7 @@ package main
 import (
 	"fmt"
 	"go/ast"
+	"go/parser"
 	"go/token"
 	"go/types"
 	"os"
@@ -214,6 +215,10 @@ func loadEngine(repo string) (*Engine, error) {
 	e.contracts = cs
 	// bind
 	for key, fs := range cs.Funcs {
+		if fs.IsLemma {
+			e.targets[key] = &Target{Key: key, spec: fs, pkg: e.pkgByName(fs.Pkg)}
+			continue
+		}
 		if t, ok := e.targets[key]; ok {
 			t.spec = fs
 		} else if !e.isInterfaceContract(key) {
@@ -222,6 +227,65 @@ func loadEngine(repo string) (*Engine, error) {
 	}
 	e.loadTime = time.Since(t0).Seconds()
 	return e, nil
+}
+
+func (e *Engine) pkgByName(n string) *packages.Package {
+	for _, p := range e.pkgs {
+		if p.Name == n {
+			return p
+		}
+	}
+	return nil
+}
+
+// verifyLemma proves a pure lemma: requires ==> ensures over fresh variables.
+func (e *Engine) verifyLemma(t *Target, c *FnCtx, res *FuncResult) {
+	fs := t.spec
+	src := "package p\nfunc f(" + fs.LemmaParams + ")"
+	f, err := parserParseFile(src)
+	if err != nil {
+		c.unsupported = append(c.unsupported, "lemma parameters: "+err.Error())
+		return
+	}
+	st := &State{pc: "true", env: map[types.Object]Val{}, heaps: map[string]string{}, alloc: "alloc0"}
+	c.entry = st
+	sc := &SpecScope{c: c, cur: st, vars: map[string]Val{}}
+	fd := f.Decls[0].(*ast.FuncDecl)
+	for _, fl := range fd.Type.Params.List {
+		tn := exprString(fl.Type)
+		for _, n := range fl.Names {
+			var v Val
+			switch tn {
+			case "int":
+				v = vInt(c.fresh(n.Name, "Int"))
+			case "bool":
+				v = vBool(c.fresh(n.Name, "Bool"))
+			default:
+				ty := sc.lookupType(tn)
+				if ty == nil {
+					c.unsupported = append(c.unsupported, "lemma parameter type "+tn)
+					return
+				}
+				v = c.freshVal(ty, n.Name)
+				for _, fct := range c.typeFacts(v) {
+					c.fact(fct)
+				}
+			}
+			sc.vars[n.Name] = v
+			c.paramVals[n.Name] = v
+		}
+	}
+	for _, r := range fs.Requires {
+		c.fact(sc.boolOf(r.Expr))
+	}
+	c.obls = append(c.obls, &Obligation{Name: t.Key + "/vacuity/pre", Kind: "vacuity", Func: t.Key, NCmds: len(c.cmds), PC: "true", Prop: "false", Text: "lemma hypotheses are satisfiable", ctx: c, Vacuity: true, Props: c.curProps})
+	for i, en := range fs.Ensures {
+		name := fmt.Sprintf("post#%d", i+1)
+		if en.Label != "" {
+			name = "post:" + en.Label
+		}
+		c.obligeNamed(st, "lemma", name, sc.boolOf(en.Expr), "lemma "+en.Src, token.NoPos)
+	}
 }
 
 func (e *Engine) isInterfaceContract(key string) bool {
@@ -275,13 +339,16 @@ type paramTerm struct {
 }
 
 func (e *Engine) newCtx(t *Target) *FnCtx {
+	if t.pkg == nil {
+		t.pkg = e.pkgs[0]
+	}
 	c := &FnCtx{eng: e, w: e.w, pkg: t.pkg, info: t.pkg.TypesInfo, fname: t.Key, spec: t.spec,
 		declared: map[string]bool{}, counts: map[string]int{}, paramVals: map[string]Val{}, paramObjs: map[string]types.Object{},
 		unmodelled: map[string]bool{}, trusted: map[string]bool{}, strLits: map[string]string{}, factCache: map[string]bool{},
 		ghost: map[string]Val{}, deps: map[string]bool{}, callHeapKeys: map[string]bool{}, sig: t.sig}
 	if t.decl != nil {
 		c.decl = t.decl
-	} else {
+	} else if t.lit != nil {
 		c.decl = t.lit
 	}
 	return c
@@ -325,6 +392,10 @@ func (e *Engine) verifyFunc(t *Target) (res *FuncResult) {
 	c.fact("(= (slen strEmpty) 0)")
 	c.fact("(> alloc0 0)")
 	e.emitAxioms(c)
+	if fs != nil && fs.IsLemma {
+		e.verifyLemma(t, c, res)
+		return
+	}
 	st := &State{pc: "true", env: map[types.Object]Val{}, heaps: map[string]string{}, alloc: "alloc0"}
 	c.entry = st.clone()
 	sig := t.sig
@@ -446,6 +517,7 @@ func (e *Engine) verifyFunc(t *Target) (res *FuncResult) {
 		t := sc.boolOf(en.Expr)
 		o := c.obligeNamed(final, "post", name, t, "ensures "+en.Src, token.NoPos)
 		o.Spec = en.Expr
+		o.scope = sc
 	}
 	if fs.Assigns == "nothing" {
 		t := c.frameFormula(c.entry, final, "alloc0", nil)
@@ -551,4 +623,8 @@ func (e *Engine) dumpQuery(o *Obligation, dir string) string {
 	f := filepath.Join(dir, smtName(o.Name)+".smt2")
 	os.WriteFile(f, []byte(o.query()+"(check-sat)\n"), 0o644)
 	return f
+}
+
+func parserParseFile(src string) (*ast.File, error) {
+	return parser.ParseFile(token.NewFileSet(), "", src, 0)
 }
